@@ -38,6 +38,20 @@ def run_flow(ctx) -> RuleResult:
     if term_loop is None:
         raise AnalysisError("_to_string: term loop not found")
     iter_var = term_loop.iter.id if isinstance(term_loop.iter, ast.Name) else None
+    # a local that only holds an option value stands for that option: classify its uses instead
+    expanded_reads = []
+    for key, node in reads:
+        parent = node._parent
+        if isinstance(parent, ast.Assign) and parent.value is node and len(parent.targets) == 1 \
+                and isinstance(parent.targets[0], ast.Name):
+            alias = parent.targets[0].id
+            stores = [n for n in ast.walk(func) if isinstance(n, ast.Name) and n.id == alias and isinstance(n.ctx, ast.Store)]
+            uses = [n for n in ast.walk(func) if isinstance(n, ast.Name) and n.id == alias and isinstance(n.ctx, ast.Load)]
+            if len(stores) == 1 and uses:
+                expanded_reads.extend((key, use) for use in uses)
+                continue
+        expanded_reads.append((key, node))
+    reads = expanded_reads
     for key, node in reads:
         where = module.loc(node)
         parent = node._parent
@@ -258,11 +272,11 @@ def run_unsigned(ctx) -> RuleResult:
         for path in ctx.paths_auto(module, func):
             for step in path:
                 nodes = []
-                if step.kind == "stmt" and isinstance(step.node, ast.AugAssign) and isinstance(step.node.op, (ast.Sub, ast.Pow, ast.Mult)):
+                if step.kind == "stmt" and isinstance(step.node, ast.AugAssign) and isinstance(step.node.op, (ast.Sub, ast.Pow)):
                     nodes.append(("aug", step.node))
                 for raw in step_exprs(step):
                     for sub in ast.walk(raw):
-                        if isinstance(sub, ast.BinOp) and isinstance(sub.op, (ast.Sub, ast.Pow, ast.Mult)):
+                        if isinstance(sub, ast.BinOp) and isinstance(sub.op, (ast.Sub, ast.Pow)):
                             nodes.append(("bin", sub))
                 for kind, node in nodes:
                     ckey = (id(node), id(step.vars))
@@ -285,19 +299,6 @@ def run_unsigned(ctx) -> RuleResult:
                                 f"'{U(getattr(node, '_orig', node))[:60]}' relies on a component-wise guard of the unsigned "
                                 f"exponents that is not (or no longer) in place: {why}",
                                 derivation=describe_path(path)))
-                    if isinstance(op, ast.Mult) and (_is_exponent_value(left) or _is_exponent_value(right)):
-                        other = right if _is_exponent_value(left) else left
-                        n += 1
-                        small = isinstance(other, ast.Constant) or _is_exponent_value(other) and False
-                        result.ob(f"{fq}: uint32 exponents are not scaled by a run-time value", small,
-                                  module.loc(step.orig), _txt(other)[:80])
-                        if not small:
-                            result.add(Finding(
-                                "R-UNSIGNED", module, qual, node,
-                                f"'{U(getattr(node, '_orig', node))[:60]}' multiplies unsanitised numpy.uint32 exponents by a "
-                                f"run-time value: the product stays uint32 and wraps silently at 2**32, so a different "
-                                f"monomial is stored instead of raising - widen first (astype(int))",
-                                derivation=describe_path(path)))
                     if isinstance(op, ast.Pow) and _is_exponent_value(right):
                         n += 1
                         base_poly = _is_indeterminants(left)
@@ -310,11 +311,67 @@ def run_unsigned(ctx) -> RuleResult:
                                 f"unsanitised numpy.uint32 exponent; numpy 2 casts a Python scalar base to uint32 "
                                 f"(poly(-1) overflows) - wrap the exponent in int()",
                                 derivation=describe_path(path)))
+            # a product of uint32 exponents with a run-time value handed on as an exponent matrix
+            for step in path:
+                for raw in step_exprs(step):
+                    for call in ast.walk(raw):
+                        if not isinstance(call, ast.Call):
+                            continue
+                        exps = None
+                        fname = call.func.attr if isinstance(call.func, ast.Attribute) else getattr(call.func, "id", "")
+                        if fname in ("from_attributes", "polynomial_from_attributes", "ndpoly"):
+                            exps = next((kw.value for kw in call.keywords if kw.arg == "exponents"), None) or (
+                                call.args[0] if call.args else None)
+                        if exps is None or (id(exps), id(step.vars)) in seen:
+                            continue
+                        seen.add((id(exps), id(step.vars)))
+                        expanded = step.expand(exps)
+                        for sub in _top_level(expanded):
+                            if isinstance(sub, ast.BinOp) and isinstance(sub.op, ast.Mult):
+                                for this, other in ((sub.left, sub.right), (sub.right, sub.left)):
+                                    if _is_exponent_value(this) and not isinstance(other, ast.Constant):
+                                        n += 1
+                                        result.ob(f"{fq}: uint32 exponents are not scaled by a run-time value", False,
+                                                  module.loc(step.orig), _txt(sub)[:80])
+                                        result.add(Finding(
+                                            "R-UNSIGNED", module, qual, call,
+                                            f"the exponent matrix '{_txt(sub)[:70]}' multiplies unsanitised numpy.uint32 "
+                                            f"exponents by a run-time value: the product stays uint32 and wraps silently at "
+                                            f"2**32, so a different monomial is stored instead of raising - widen first "
+                                            f"(astype(int))", derivation=describe_path(path),
+                                            construct="uint32 exponents scaled by a run-time value"))
+                                        break
     result.info["arithmetic_sinks"] = n
     if n < 2:
         raise AnalysisError(f"R-UNSIGNED: only {n} exponent arithmetic sinks found (confirmed 3)")
     result.floor = 2
     return result
+
+
+def _top_level(expr):
+    """Sub-expressions that make up the VALUE of expr, not descending below an attribute access such as
+    X.exponents (whatever computed X is not part of this value's arithmetic)."""
+    todo = [expr]
+    seen = set()
+    while todo:
+        node = todo.pop()
+        if id(node) in seen:
+            continue
+        seen.add(id(node))
+        yield node
+        if isinstance(node, ast.Attribute):
+            if node.attr in ("T", "real"):
+                todo.append(node.value)
+            continue
+        if isinstance(node, ast.Call):
+            if is_S(node):
+                todo.extend(node.args[:1])
+            elif isinstance(node.func, ast.Attribute) and node.func.attr in ("copy", "astype", "reshape", "ravel", "flatten", "view"):
+                todo.append(node.func.value)
+            elif isinstance(node.func, ast.Attribute) and isinstance(node.func.value, ast.Name) and node.func.value.id in ("numpy", "np"):
+                todo.extend(node.args)
+            continue
+        todo.extend(ast.iter_child_nodes(node))
 
 
 def _is_indeterminants(expr) -> bool:
